@@ -21,6 +21,9 @@ import GoNfsd.Lemmas.BlockMap
 import GoNfsd.Lemmas.ShrinkTree
 import GoNfsd.Lemmas.InoOps
 import GoNfsd.Lemmas.Alloc
+import GoNfsd.Lemmas.ShrinkHandoff
+import GoNfsd.Gen.Skeleton
+import GoNfsd.Model.Skeleton
 
 namespace GoNfsd.Props.C05
 open GoNfsd.Model.Fsck GoNfsd.Gen.Consts GoNfsd.Gen.Super GoNfsd.Props.C04
@@ -419,5 +422,63 @@ theorem removal_gives_back_every_block (g : GoNfsd.Model.FileData.G) (a : Nat) (
     ∀ i, g.maps a i ≠ 0 →
       (∀ b j, (g.resize a 0).maps b j ≠ g.maps a i) ∧ ∀ o, (g.resize a 0).data (g.maps a i) o = 0 :=
   ⟨(GoNfsd.Model.FileData.gresize_ok g a 0 h).1, GoNfsd.Model.FileData.gresize_zero_frees_everything g a h⟩
+
+/-! ### who finishes a truncation left to the background (model M15) -/
+
+section handoff
+open GoNfsd.Model.ShrinkHandoff
+
+/-- ONCE BACKGROUND FREEING HAS FINISHED NOTHING IS LEFT PENDING: whatever the order in which requests leave
+    truncations to the background (of the same inode again and again, while a thread for it is in any phase), threads
+    run their transactions, other requests help, and threads exit — when no shrinker thread is left, no inode has
+    blocks still to be freed.  (A removed file is unreachable: blocks left pending on it would stay allocated until its
+    number is reused.)  Holds because `StartShrinker` starts a thread on every call. -/
+theorem quiescent_means_nothing_is_left_to_free (evs : List Ev)
+    (hq : (run always {} evs).threads = []) : (run always {} evs).pending = [] := by
+  have h := run_inv {} evs init_inv
+  cases hp : (run always {} evs).pending with
+  | nil => rfl
+  | cons i rest =>
+    obtain ⟨t, ht, _⟩ := h i (by rw [hp]; simp)
+    rw [hq] at ht; cases ht
+
+/-- the stronger statement it follows from: at every moment every pending inode has a thread that will look at it again -/
+theorem every_pending_truncation_has_a_thread_that_will_look (evs : List Ev) (i : Nat)
+    (hi : i ∈ (run always {} evs).pending) :
+    ∃ t ∈ (run always {} evs).threads, t.inum = i ∧ t.looping = true :=
+  run_inv {} evs init_inv i hi
+
+/-- … and it is FALSE for a `StartShrinker` that starts no second thread for an inode that has one (seeded change
+    C05m): the thread has had its last look, the file is removed (pending again), no thread is started, the thread
+    exits — quiescent with inode 5 still holding its blocks. -/
+theorem deduplicating_the_threads_loses_a_truncation :
+    let s := run dedupe {} [.request 5, .round 0 false, .request 5, .exit 0]
+    s.threads = [] ∧ s.pending = [5] := by decide
+
+/-- what the code does (tables regenerated from shrinker/*.go and nfs/*.go on every run): `StartShrinker` reaches its
+    `go` statement on every path; the thread starts with `DoShrink`, whose loop runs `Shrink` and `Commit` and is left
+    early only after a refused commit or a crash; and every `Resize` in package nfs hands its "more to free" result to
+    `StartShrinker`. -/
+theorem start_shrinker_always_starts_a_thread :
+    (∀ f ∈ GoNfsd.Gen.Skeleton.shrinkerSpawn, f.1 = "StartShrinker" → GoNfsd.Model.Skeleton.spawnsOnEveryPath f.2 = true) ∧
+    (∀ f ∈ GoNfsd.Gen.Skeleton.shrinkerSpawn, f.1 = "shrinker" → GoNfsd.Model.Skeleton.threadRunsDoShrink f.2 = true) ∧
+    (∀ f ∈ GoNfsd.Gen.Skeleton.shrinkerSpawn, f.1 = "DoShrink" → GoNfsd.Model.Skeleton.doShrinkLoops f.2 = true) ∧
+    (∀ u ∈ GoNfsd.Gen.Skeleton.resizeUses, u.2 = "starts-shrinker") := by decide
+
+/-- the tables do contain the three functions and both callers -/
+theorem handoff_tables_nonempty :
+    (GoNfsd.Gen.Skeleton.shrinkerSpawn.map (·.1)).contains "StartShrinker" = true ∧
+    (GoNfsd.Gen.Skeleton.shrinkerSpawn.map (·.1)).contains "shrinker" = true ∧
+    (GoNfsd.Gen.Skeleton.shrinkerSpawn.map (·.1)).contains "DoShrink" = true ∧
+    2 ≤ GoNfsd.Gen.Skeleton.resizeUses.length := by decide
+
+/-- the checker rejects the deduplicating `StartShrinker` of C05m as the translator renders it -/
+example : GoNfsd.Model.Skeleton.spawnsOnEveryPath
+    ["call:DPrintf", "call:Lock", "if", "call:Unlock", "return", "fi", "set", "set", "call:Unlock", "go"] = false := by decide
+
+/-- non-vacuity: a history that ends quiescent with two truncations of one inode finished -/
+example : (run always {} [.request 5, .round 0 true, .round 0 false, .request 5, .exit 0, .round 0 false, .exit 0]).threads = [] := by decide
+
+end handoff
 
 end GoNfsd.Props.C05
